@@ -146,3 +146,12 @@ def block_in_frame(eng, ev, frame):
             return None
         fk, b = fr.parent.key, fr.call_block
     return None
+
+
+def always_random(t, _depth=0):
+    """every alternative value of t (through phis) contains a random atom"""
+    if t.op == "phi":
+        inc = PHI.get(t.args[0]) or {}
+        vals = [v for v in inc.values() if v is not t]
+        return bool(vals) and all(always_random(v, _depth + 1) for v in vals) if _depth < 8 else False
+    return bool(Q.rngs(Q.leaves(t)))
